@@ -123,7 +123,7 @@ def mk(kind, *args):
       for i in range(0, len(base.args), 2):
         if base.args[i] == a[1]:
           return base.args[i + 1]
-    if base is not None and base.kind == "map":
+    if base is not None and base.kind == "map" and len(base.args) == 3 and isinstance(base.args[0], Poly):
       elt, bv, src = base.args
       return rebuild(elt.deep_subst(bv, a[1]))   # map(elt(bv), bv, src)[i] = elt(i)
     if base is not None and base.kind == "upd" and len(base.args) == 3 and isinstance(a[1], Poly) and base.args[1] == a[1]:
@@ -175,6 +175,7 @@ NEG = {"Eq": "NotEq", "NotEq": "Eq", "Lt": "GtE", "LtE": "Gt", "Gt": "LtE", "GtE
        "Is": "IsNot", "IsNot": "Is", "In": "NotIn", "NotIn": "In"}
 
 
+FILTER_CONDS = {}  # repr(list of condition trees) -> the list, for every filtered comprehension met (filter atoms carry the repr)
 ITE_CONDS = {}    # repr(condition tree) -> condition tree of every conditional expression met (ite atoms carry the repr)
 
 
@@ -608,6 +609,7 @@ class Walker:
     self.bind_iter_target(g.target, it, sub, Poly.atom(bv), node=None)
     if g.ifs:
       conds = [self.cond(c, sub) for c in g.ifs]
+      FILTER_CONDS[repr(conds)] = conds
       src_f = mk("filter", as_poly(src[0]) if src else as_poly(it), P("cond", repr(conds)))
       # elements of a filtered list are not index-aligned with the source
       sub2 = st.fork()
